@@ -85,6 +85,13 @@ func registerBoom() {
 				}
 				return args[0], nil
 			})
+		// vpark(x) = x, after giving the processor away: evaluations of one predicate by several goroutines overlap for certain
+		_ = functions.RegisterCustomFunction("vpark", functions.TypeMath, "verif", "identity that yields the processor", 1, 1,
+			func(ctx *functions.FunctionContext, args []any) (any, error) {
+				runtime.Gosched()
+				time.Sleep(20 * time.Microsecond)
+				return args[0], nil
+			})
 		_ = functions.Register(&boomSum{BaseFunction: functions.NewBaseFunction("vboomsum", functions.TypeAggregation, "verif", "sum whose Result panics when a 3 was added", 1, -1)})
 	})
 }
